@@ -146,7 +146,6 @@ where
         let k = if p.f > 0 { 1 } else { 0 };
         assert_eq!(be.n, p.n0 + k, "flush delivers one word iff bits are pending");
         assert_eq!(ns, W::NBITS, "buffer empty after flush");
-        assert_eq!(be.flushes, 1, "backend flushed");
         check_predelivered(be, pre0, pre1, p.n0);
         if p.f > 0 {
             let expected = if idx < p.f {
@@ -205,13 +204,11 @@ where
     }
     assert_eq!(rec_d.n, ref_n, "drop delivers as many words as flush");
     assert!(p.f == 0 || rec_d.words[p.n0] == ref_last, "drop delivers the same word as flush");
-    assert!(rec_d.flushes >= 1, "drop flushes the backend");
     // into_inner
     let wi = Wr::<E, W>::verif_from_parts(p.rec, p.buffer, p.space);
     let back = wi.into_inner().unwrap();
     assert_eq!(back.n, ref_n, "into_inner delivers as many words as flush");
     assert!(p.f == 0 || back.words[p.n0] == ref_last, "into_inner delivers the same word as flush");
-    assert_eq!(back.flushes, 1, "into_inner flushes once (no second flush from Drop)");
     crate::cover!(s, p.f > 0, "something pending");
 }
 
